@@ -51,6 +51,14 @@ ENGINES["aclsim"] = {
                      "stub": ["consensus node: real AclList with full validation + harness acceptor signature by a sim network key (no consensus service, no coordinator)", "network between actors, observers and consensus: harness event loop"]},
 }
 
+ENGINES["storesim"] = {
+    "serves": ["C10"],
+    "kind": "fault enumeration over seeded operations: every storage-layer boundary an operation crosses gets a crash image (before and after the call) and an injected error (once or sticky), on the real any-store through a wrapping anystore.DB",
+    "real_vs_stub": {"real": ["spacestorage.Create/New", "headstorage", "objecttree (tree, builder, validator, storage, deferred-creation storage)", "acl list + storage", "any-store / SQLite on tmpfs (WAL, synchronous=off)"],
+                     "stub": ["faultstore: anystore.DB / Collection / WriteTx / Query wrapper that numbers the calls, returns injected errors and copies the database directory while a call is suspended",
+                              "no network: remote changes and ACL records are prebuilt by an author replica in its own database"]},
+}
+
 PROPS = {
     "C01": {
         "engine": "treesim",
@@ -163,6 +171,22 @@ PROPS = {
         "level_text": "Seeded exploration: responder/requester state pairs are produced by simulated histories (diverged, behind, reduced, concurrent snapshots), batch limits from a swarm; oracles on the produced batches and on applying them to a clone.",
         "level_note": "real response producer, load iterator, handler and storage; pairs and limits are sampled",
         "expected_probes": ["multi-batch-response", "probe-diverged", "probe-requester-behind", "probe-empty-heads"],
+    },
+    "C10": {
+        "engine": "storesim",
+        "level": "fault_enumeration",
+        "budget": {"quick": 60, "thorough": 900},
+        "rule": "one run = one seeded operation on a seeded pre-state out of: space create; tree create (eager); tree create with deferred storage + first batch of remote changes; local add; local snapshot add; remote add of a suffix the replica lacks; remote add that forces rebuild-from-storage (replica reduced to its own later snapshot, incoming change based on the older one); ACL AddRawRecord (on chains of 1-3 earlier records). "
+                "Pass 0 counts the storage-layer boundaries the operation crosses (begin tx, every Insert/Upsert/Update/Delete/query delete, collection and index creation, commit, rollback; in half of the runs also every read). Then for EVERY boundary k: a crash leg (copy of the database directory taken before and after call k, reopened in a fresh handle) and an error leg (call k returns an error, once or - 30% - for all later writes too), followed by the same input again. "
+                "Oracles: each crash image opens, its logical dump (head entries with heads/common snapshot/deleted status, per tree every change with parents/snapshot base/order id, ACL records and head) equals the dump before or the dump after the operation, recorded heads name stored changes, parents and snapshot bases are stored, order respects causality, the ACL head is the last record of a contiguous chain, tree and ACL rebuild from storage with those heads; "
+                "after an injected error the live object's heads/head equal storage's, the retry succeeds (or says 'exists' when the first attempt was durable) and the durable state is the after-state. evaluations = legs.",
+        "assumptions": COMMON_ASSUMPTIONS + ["crash = process death: the files as the OS holds them at that instant; power loss (unsynced or torn pages) has no seam short of forking any-store and is not modelled; SQLite's atomic commit is trusted",
+                                             "operations are made deterministic (unencrypted content, fixed timestamps, prebuilt records) so that every leg has the same before/after dumps",
+                                             "an injected commit failure rolls the transaction back (nothing durable)"],
+        "technique": "deterministic simulation with exhaustive fault enumeration per sampled operation: crash image and injected error at every storage boundary on the real store, atomicity / structural / retry oracles",
+        "level_text": "Operations and pre-states are sampled from a seed; for each sampled operation the storage boundaries are enumerated completely: one crash image before and after every call and one injected error (single or sticky) at every call, each judged by the all-or-nothing, structural and retry oracles.",
+        "level_note": "real storage stack down to SQLite; power-loss semantics not modelled; boundaries = calls through the anystore interfaces",
+        "expected_probes": ["image=before", "image=after", "operation-reported-the-error"],
     },
     "C16": {
         "engine": "tasksim",
